@@ -175,3 +175,26 @@ theorem prefix_cross_routing : ¬ CaptureSeparatedN QM o labX VX := by
   revert hmem
   decide
 end TLX.Props.ExportDemux.Ex
+
+namespace TLX.Props.ExportDemux.Ex
+open TLX TLX.MainLoop TLX.Export TLX.Lemmas.ExportProps TLX.Lemmas.ExportDemux TLX.Props.ExportInputs
+open TLX.Props.ExportInputs2.Ex (nano evs3 isVictim X3 IS3 evs3_read evs3_wf)
+open TLX.Spec.Containers (encode scale)
+
+/-! ### file to file: the libpcap capture of `ExportInputs2.Ex` (two segments of one TCP flow, a segment of another flow, a
+non-IP frame) and the file holding only the packet records of the first flow -/
+def keepIt : Container.Item → Bool := fun it => !isVictim it
+def keepP : Pkt → Bool := fun p => p.l4 == .tcp && (p.src.port == 50000 || p.dst.port == 50000)
+
+theorem demux_file_instance (mask : Quic.Dissect.MaskFn) (H : Crypto.Prims) (P : Cipher.Prims) (kl : Option Keylog.Str) :
+    exportFile mask H P ExportInputs2.Ex.args0 true kl (encode nano evs3) =
+      ExportInputs.finish (framesFrom mask H P freshState ExportInputs2.Ex.args0 (fileKeysOf kl) X3 (Ingest.lookup IS3)) ∧
+    exportFile mask H P ExportInputs2.Ex.args0 true kl (encode nano (evs3.filter (evKeep nano keepIt))) =
+      ExportInputs.finish (framesFrom mask H P freshState ExportInputs2.Ex.args0 (fileKeysOf kl) (only keepP X3)
+        (Ingest.lookup IS3)) ∧
+    (only keepP X3).length = 2 ∧ X3.length = 4 :=
+  ⟨(export_demux_encoded mask H P ExportInputs2.Ex.args0 kl nano evs3 keepIt keepP evs3_wf.1 evs3_wf.2 X3 IS3 evs3_read
+      (by decide +kernel) (by decide +kernel)).1,
+   (export_demux_encoded mask H P ExportInputs2.Ex.args0 kl nano evs3 keepIt keepP evs3_wf.1 evs3_wf.2 X3 IS3 evs3_read
+      (by decide +kernel) (by decide +kernel)).2, by decide +kernel, by decide +kernel⟩
+end TLX.Props.ExportDemux.Ex
